@@ -164,12 +164,247 @@ def inline_helpers(crate, fn, rounds=2):
     return nf
 
 
+def expand_for_each(crate, fn):
+    """`iter.for_each(|x| body)` rewritten as the loop it is:  loop { match iter.next() { Some(x) => body, None => break } }.
+    The closure body is spliced in; captured variables are accessed directly (a capture `&mut v` used as `*env.k` becomes `v`),
+    so that loop-carried state updated inside the closure is visible as state of the enclosing function.
+    Returns a new mir.Fn or None."""
+    f = copy.deepcopy(fn.f)
+    body = f["mir"]
+    blocks = body["blocks"]
+    locals_ = body["locals"]
+    changed = False
+
+    def find_def(l):
+        """the single statement-level assignment to local l (None if not exactly one)"""
+        found = []
+        for b in blocks:
+            if b["cleanup"]:
+                continue
+            for s_ in b["stmts"]:
+                if s_.get("s") == "assign" and s_["lhs"]["l"] == l and not s_["lhs"]["proj"]:
+                    found.append(s_)
+        return found[0] if len(found) == 1 else None
+    for b in list(blocks):
+        if b["cleanup"]:
+            continue
+        t = b["term"]
+        if t["t"] != "call" or not (t.get("callee") or "").endswith("Iterator::for_each") or t.get("target") is None or len(t["args"]) != 2:
+            continue
+        it, cl = t["args"]
+        if it.get("o") != "move" or it["proj"] or cl.get("o") != "move" or cl["proj"]:
+            continue
+        cdef = find_def(cl["l"])
+        if cdef is None or cdef["rv"]["r"] != "aggregate" or cdef["rv"].get("agg") != "closure":
+            continue
+        g = crate.fns.get(cdef["rv"].get("def") or cdef["rv"].get("closure") or "")
+        if g is None:
+            # closure key recorded in the aggregate's type string
+            for k_ in crate.fns:
+                if k_.startswith(fn.key + "::{closure") and crate.fns[k_].f.get("sp") and str(cdef["rv"].get("adt") or cdef["rv"].get("name") or "") == k_:
+                    g = crate.fns[k_]
+        if g is None or g.argc != 2:
+            continue
+        caps = cdef["rv"]["ops"]
+        env_by_ref = g.locals[1]["ty"].get("k") == "ref"
+        # capture k -> (base place in the parent, needs one deref in the closure?)
+        capmap = {}
+        ok = True
+        for k_, o in enumerate(caps):
+            if o.get("o") not in ("move", "copy") or o["proj"]:
+                ok = False
+                break
+            d = find_def(o["l"])
+            if d is not None and d["rv"]["r"] == "ref":
+                capmap[k_] = ("ref", d["rv"]["p"])          # capture is &place / &mut place
+            else:
+                capmap[k_] = ("val", {"l": o["l"], "proj": [], "ty": o.get("ty")})
+        if not ok:
+            continue
+        lbase = len(locals_)
+        bbase = len(blocks)
+        pbase = len(f["promoted"])
+        for l in g.locals:
+            nl = dict(l)
+            nl["i"] = lbase + l["i"]
+            nl["name"] = None
+            locals_.append(nl)
+        for pb in g.f["promoted"]:
+            f["promoted"].append(copy.deepcopy(pb))
+        l_ref = len(locals_)
+        locals_.append({"i": l_ref, "ty": {"s": "&mut iter", "k": "ref", "mut": True, "to": {"s": "iter"}}, "name": None, "user": False, "mut": True})
+        l_nxt = len(locals_)
+        locals_.append({"i": l_nxt, "ty": {"s": "std::option::Option<item>", "k": "adt", "adt": "std::option::Option", "args": []}, "name": None, "user": False, "mut": True})
+        l_dis = len(locals_)
+        locals_.append({"i": l_dis, "ty": {"s": "isize", "k": "int", "signed": True, "bits": 64, "psize": True}, "name": None, "user": False, "mut": True})
+        env = lbase + 1
+        item = lbase + 2
+
+        def fix_place(p):
+            """(*env).k [*]  ->  the captured place"""
+            if p["l"] != env:
+                return p
+            pr = p["proj"]
+            i0 = 0
+            if env_by_ref:
+                if not pr or pr[0].get("p") != "deref":
+                    return p
+                i0 = 1
+            if len(pr) <= i0 or pr[i0].get("p") != "field":
+                return p
+            kind, base = capmap.get(pr[i0]["i"], (None, None))
+            if kind is None:
+                return p
+            rest = pr[i0 + 1:]
+            if kind == "ref":
+                if not rest or rest[0].get("p") != "deref":
+                    return p            # the reference itself is used (passed on): leave the access as it is
+                return {"l": base["l"], "proj": list(base["proj"]) + rest[1:], "ty": p.get("ty")}
+            return {"l": base["l"], "proj": list(base["proj"]) + rest, "ty": p.get("ty")}
+
+        def fix_node(n):
+            n = copy.copy(n)
+            if n.get("s") == "assign":
+                n["lhs"] = fix_place(n["lhs"])
+                rv = dict(n["rv"])
+                # tmp = copy (*env).k  where capture k is a reference  ->  tmp = &captured place
+                if rv["r"] == "use" and rv["a"].get("o") in ("copy", "move") and rv["a"]["l"] == env:
+                    pr = rv["a"]["proj"]
+                    i0 = 1 if env_by_ref else 0
+                    if len(pr) == i0 + 1 and pr[i0].get("p") == "field" and (not env_by_ref or pr[0].get("p") == "deref"):
+                        kind, base = capmap.get(pr[i0]["i"], (None, None))
+                        if kind == "ref":
+                            n["rv"] = {"r": "ref", "mut": str(rv["a"].get("ty", "")).startswith("&mut"), "fake": False, "p": dict(base)}
+                            return n
+                for k_ in ("a", "b"):
+                    if k_ in rv and rv[k_].get("o") in ("copy", "move"):
+                        rv[k_] = dict(fix_place(rv[k_]), o=rv[k_]["o"])
+                if "p" in rv:
+                    rv["p"] = fix_place(rv["p"])
+                if "ops" in rv:
+                    rv["ops"] = [dict(fix_place(o), o=o["o"]) if o.get("o") in ("copy", "move") else o for o in rv["ops"]]
+                n["rv"] = rv
+            elif n.get("t") == "call":
+                n["args"] = [dict(fix_place(a), o=a["o"]) if a.get("o") in ("copy", "move") else a for a in n["args"]]
+                n["dest"] = fix_place(n["dest"])
+            elif n.get("t") == "switch" and n["discr"].get("o") in ("copy", "move"):
+                n["discr"] = dict(fix_place(n["discr"]), o=n["discr"]["o"])
+            elif n.get("t") == "assert":
+                if n["cond"].get("o") in ("copy", "move"):
+                    n["cond"] = dict(fix_place(n["cond"]), o=n["cond"]["o"])
+                n["ops"] = [dict(fix_place(o), o=o["o"]) if o.get("o") in ("copy", "move") else o for o in n["ops"]]
+            elif n.get("t") == "drop":
+                n["p"] = fix_place(n["p"])
+            return n
+        lmap = lambda l, lbase=lbase: lbase + l
+        bmap = lambda x, bbase=bbase: bbase + x
+        pmap = lambda x, pbase=pbase: pbase + x
+        sp = t["sp"]
+        n_g = len(g.blocks)
+        H, H2, B, U = bbase + n_g, bbase + n_g + 1, bbase + n_g + 2, bbase + n_g + 3
+        for gb in g.blocks:
+            nb = {"i": bbase + gb["i"], "cleanup": gb["cleanup"],
+                  "stmts": [fix_node(_remap_node(s_, lmap, bmap, pmap)) for s_ in gb["stmts"]],
+                  "term": fix_node(_remap_node(gb["term"], lmap, bmap, pmap))}
+            if nb["term"]["t"] == "return":
+                nb["term"] = {"t": "goto", "target": H, "sp": sp}
+            blocks.append(nb)
+        nxt_call = {k_: v for k_, v in t.items() if k_ not in ("args", "dest", "target", "callee", "callee_full", "resolved", "gargs")}
+        nxt_call.update({"t": "call", "callee": "std::iter::Iterator::next", "callee_full": "std::iter::Iterator::next", "resolved": None,
+                         "gargs": [], "trait": "std::iter::Iterator",
+                         "args": [{"l": l_ref, "proj": [], "ty": "&mut iter", "o": "move"}],
+                         "dest": {"l": l_nxt, "proj": [], "ty": "std::option::Option<item>"}, "target": H2, "unwind": None, "sp": sp})
+        blocks.append({"i": H, "cleanup": False,
+                       "stmts": [{"s": "assign", "lhs": {"l": l_ref, "proj": [], "ty": "&mut iter"},
+                                  "rv": {"r": "ref", "mut": True, "fake": False, "p": {"l": it["l"], "proj": [], "ty": it.get("ty")}}, "sp": sp}],
+                       "term": nxt_call})
+        blocks.append({"i": H2, "cleanup": False,
+                       "stmts": [{"s": "assign", "lhs": {"l": l_dis, "proj": [], "ty": "isize"},
+                                  "rv": {"r": "discr", "p": {"l": l_nxt, "proj": [], "ty": "std::option::Option<item>"}}, "sp": sp}],
+                       "term": {"t": "switch", "discr": {"l": l_dis, "proj": [], "ty": "isize", "o": "move"},
+                                "dty": {"s": "isize", "k": "int", "signed": True, "bits": 64, "psize": True},
+                                "arms": [[0, t["target"]], [1, B]], "otherwise": U, "sp": sp}})
+        blocks.append({"i": B, "cleanup": False,
+                       "stmts": [{"s": "assign", "lhs": {"l": item, "proj": [], "ty": g.locals[2]["ty"].get("s")},
+                                  "rv": {"r": "use", "a": {"l": l_nxt, "proj": [{"p": "downcast", "variant": "Some", "vi": 1},
+                                                                              {"p": "field", "i": 0, "name": "0", "adt": "std::option::Option", "variant": "Some",
+                                                                               "ty": g.locals[2]["ty"].get("s")}],
+                                                           "ty": g.locals[2]["ty"].get("s"), "o": "copy"}}, "sp": sp}],
+                       "term": {"t": "goto", "target": bbase, "sp": sp}})
+        blocks.append({"i": U, "cleanup": False, "stmts": [], "term": {"t": "unreachable", "sp": sp}})
+        b["term"] = {"t": "goto", "target": H, "sp": sp}
+        changed = True
+        # reference propagation inside the spliced body: r = &P (single definition)  =>  (*r).rest is P.rest
+        new_blocks = blocks[bbase:bbase + n_g]
+        for _round in range(4):
+            refdef = {}
+            count = {}
+            for nb in new_blocks:
+                for s_ in nb["stmts"]:
+                    if s_.get("s") == "assign" and not s_["lhs"]["proj"]:
+                        count[s_["lhs"]["l"]] = count.get(s_["lhs"]["l"], 0) + 1
+                        if s_["rv"]["r"] == "ref":
+                            refdef[s_["lhs"]["l"]] = s_["rv"]["p"]
+                if nb["term"]["t"] == "call":
+                    count[nb["term"]["dest"]["l"]] = count.get(nb["term"]["dest"]["l"], 0) + 1
+            refdef = {l: p_ for l, p_ in refdef.items() if count.get(l) == 1 and l >= lbase and p_["l"] != l}
+            if not refdef:
+                break
+            hit = [False]
+
+            def rp(p_):
+                if p_["l"] in refdef and p_["proj"] and p_["proj"][0].get("p") == "deref":
+                    base = refdef[p_["l"]]
+                    hit[0] = True
+                    return {"l": base["l"], "proj": list(base["proj"]) + p_["proj"][1:], "ty": p_.get("ty")}
+                return p_
+
+            def rn(n):
+                n = copy.copy(n)
+                if n.get("s") == "assign":
+                    n["lhs"] = rp(n["lhs"])
+                    rv = dict(n["rv"])
+                    for k_ in ("a", "b"):
+                        if k_ in rv and rv[k_].get("o") in ("copy", "move"):
+                            rv[k_] = dict(rp(rv[k_]), o=rv[k_]["o"])
+                    if "p" in rv:
+                        rv["p"] = rp(rv["p"])
+                    if "ops" in rv:
+                        rv["ops"] = [dict(rp(o), o=o["o"]) if o.get("o") in ("copy", "move") else o for o in rv["ops"]]
+                    n["rv"] = rv
+                elif n.get("t") == "call":
+                    n["args"] = [dict(rp(a), o=a["o"]) if a.get("o") in ("copy", "move") else a for a in n["args"]]
+                    n["dest"] = rp(n["dest"])
+                elif n.get("t") == "switch" and n["discr"].get("o") in ("copy", "move"):
+                    n["discr"] = dict(rp(n["discr"]), o=n["discr"]["o"])
+                elif n.get("t") == "assert":
+                    if n["cond"].get("o") in ("copy", "move"):
+                        n["cond"] = dict(rp(n["cond"]), o=n["cond"]["o"])
+                    n["ops"] = [dict(rp(o), o=o["o"]) if o.get("o") in ("copy", "move") else o for o in n["ops"]]
+                return n
+            for nb in new_blocks:
+                nb["stmts"] = [rn(s_) for s_ in nb["stmts"]]
+                nb["term"] = rn(nb["term"])
+            if not hit[0]:
+                break
+    if not changed:
+        return None
+    nf = mir.Fn(f, crate)
+    nf.key = fn.key
+    nf.inlined = True
+    return nf
+
+
 def variants(crate, fn):
-    """the function itself, then (if any) the function with its extracted helpers inlined"""
+    """the function itself, then the function with its extracted helpers inlined and `for_each` closures written as loops"""
     yield fn
-    try:
-        v = inline_helpers(crate, fn)
-    except Exception:
-        v = None
-    if v is not None:
-        yield v
+    seen = [fn]
+    for tr in (inline_helpers, expand_for_each):
+        for base in list(seen):
+            try:
+                v = tr(crate, base)
+            except Exception:
+                v = None
+            if v is not None:
+                seen.append(v)
+                yield v
